@@ -353,7 +353,7 @@ func (h *H) c02GenKind(ranged bool) c02Kind {
 	return c02Kind{kind: h.Pick(kinds), a: h.Intn(1 << 20), b: h.Intn(64), rnd: h.Bytes(1 + h.Intn(24))}
 }
 
-func splitKey(k string) (string, string) {
+func c02SplitKey(k string) (string, string) {
 	i := strings.IndexByte(k, '/')
 	return k[:i], k[i+1:]
 }
@@ -421,7 +421,7 @@ func (r *c02Repo) emitReplies(h *H, log []c02Read, script []c02Kind, used int) {
 
 func (h *H) c02LoadRawCase(r *c02Repo, unpacked bool) {
 	name := r.names[h.Intn(len(r.names))]
-	ts, idHex := splitKey(name)
+	ts, idHex := c02SplitKey(name)
 	if unpacked && ts == "data" && h.Intn(8) != 0 {
 		return
 	}
@@ -644,7 +644,7 @@ func (h *H) c02StoredCase(r *c02Repo) {
 	keys := st.Names("")
 	sort.Strings(keys)
 	for _, k := range keys {
-		ts, name := splitKey(k)
+		ts, name := c02SplitKey(k)
 		if name == "" {
 			name = "-"
 		}
